@@ -178,17 +178,24 @@ fn run_poly(rec: &mut Rec, d: &Value) {
         let mut m = MapTarget::<BinaryColor>::new();
         styled.draw(&mut m).unwrap();
         let dm: Vec<Value> = m.map.keys().map(|&(y, x)| json!([x, y])).collect();
-        (segs, pts, pdone, pix, xdone, dm)
+        // both sequences through count / last / nth / size_hint / mixed consumption
+        let stride = 1 + pts.len() % 3;
+        let proto = if pdone && xdone {
+            json!([iter_protocol(|| pl.points(), stride), iter_protocol_with(|| styled.pixels(), stride, |Pixel(p, _)| *p)])
+        } else {
+            json!([])
+        };
+        (segs, pts, pdone, pix, xdone, dm, proto)
     });
     match r {
-        Ok((segs, pts, pdone, pix, xdone, dm)) => {
+        Ok((segs, pts, pdone, pix, xdone, dm, proto)) => {
             if !pts.is_empty() {
                 rec.nontrivial();
             }
             rec.ev(
                 "poly",
                 json!({"v": d["v"], "off": d["off"], "segs": segs, "pts": pts_json(pts), "pdone": pdone as i32,
-                       "pix": pts_json(pix), "xdone": xdone as i32, "dm": dm}),
+                       "pix": pts_json(pix), "xdone": xdone as i32, "dm": dm, "proto": proto}),
             );
         }
         Err(p) => {
